@@ -176,6 +176,7 @@ pub fn select_call(q: &mut SelectStatement, c: &J) {
         "order_by_expr_nulls" => { q.order_by_expr_with_nulls(expr(&a[1]), order(&a[2]), nulls(&a[3])); }
         "order_field" => { q.order_by(colref(&a[1]), Order::Field(Values(values(&a[2])))); }
         "order_field_expr" => { q.order_by_expr(expr(&a[1]), Order::Field(Values(values(&a[2])))); }
+        "order_field_nulls" => { q.order_by_with_nulls(colref(&a[1]), Order::Field(Values(values(&a[2]))), nulls(&a[3])); }
         "limit" => { q.limit(a[1].as_u64().unwrap()); }
         "offset" => { q.offset(a[1].as_u64().unwrap()); }
         "union" => { q.union(union_type(&a[1]), select(&a[2])); }
